@@ -43,7 +43,7 @@ FMT = dict(
 
 def plan(tier, seed):
 	nsh = 16 if tier == 'quick' else 64
-	return [('t_files', dict(tier=tier, shard=s, nshards=nsh)) for s in range(nsh)] + [('t_default_spec', dict())]
+	return [('t_files', dict(tier=tier, shard=s, nshards=nsh)) for s in range(nsh)] + [('t_default_spec', dict()), ('t_histories', dict(depth=3 if tier == 'quick' else 4))]
 
 
 def render(contigs, orient, fmt):
@@ -181,13 +181,57 @@ def t_default_spec():
 	return sh
 
 
+def t_histories(depth, only=None):
+	"""File-level call histories in one thread: every sequence of {good file A, good file B, a file that fails only after 1500 records were parsed
+	(undecodable byte late in the file / truncated gzip stream)}: a good file's signature must not depend on what was parsed before."""
+	from mc.props.c13 import late_fault_file
+	from gambit.seq import SequenceFile
+	from gambit.sigs.calc import calc_file_signature
+	sh = Shard()
+	for ks in (fixtures.kspec(11, 'ATGAC'), fixtures.kspec(12, 'ATGAC')):
+		with fixtures.workdir('c06h') as d:
+			good = {}
+			for name, contigs in (('A', ['GGATGACAAAAAAAAAAAGGTT', 'CCATGACCCCCCCCCCCCTT']), ('B', ['TTATGACGTGTGTGTGTGTAA'])):
+				p = os.path.join(d, name + '.fa')
+				fixtures.write_fasta(p, contigs)
+				good[name] = (SequenceFile(p, 'fasta', 'auto'), sorted(set().union(*[set(R.ref_signature(ks.k, b'ATGAC', [c.encode()])) for c in contigs])))
+			bad = {'F-late-bad-byte': late_fault_file(d, 'late-bad-byte', 'late.fa'), 'F-late-truncated-gzip': late_fault_file(d, 'late-truncated-gzip', 'late.fa.gz')}
+			events = list(good) + list(bad)
+			for hist in ([tuple(only)] if only else itertools.product(events, repeat=depth)):
+				if not only and not any(e in good for e in hist[1:]):
+					continue
+				for step, ev in enumerate(hist):
+					sh.evals += 1
+					try:
+						got = calc_file_signature(ks, good[ev][0] if ev in good else bad[ev])
+						err = None
+					except Exception as e:
+						got, err = None, e
+					case = dict(subset='history', order=[], orient=[], fmt={}, k=ks.k, prefix='ATGAC', history=list(hist[:step + 1]))
+					if ev in good:
+						if err is not None or got.tolist() != good[ev][1]:
+							sh.violation('signature-depends-on-earlier-files', case, good[ev][1], repr(err) if err else got.tolist())
+							break
+						if any(h in bad for h in hist[:step]):
+							sh.count('good_files_after_a_failed_parse')
+							sh.nontrivial += 1
+					elif err is None:
+						sh.violation('corrupt-file-parsed-without-error', case, 'an error', got.tolist()[:5])
+						break
+	sh.sample(dict(family='histories', events=events, last_history=list(hist)))
+	return sh
+
+
 def finalize(agg, tier):
 	agg.require('genomes_where_joining_contigs_would_differ', 10)
 	agg.require('variants_with_reverse_complemented_contig', 100)
+	agg.require('good_files_after_a_failed_parse', 10)
 
 
 def replay(case, kind=None):
 	sh = Shard()
+	if case['subset'] == 'history':
+		return [v for v in t_histories(len(case['history']), only=case['history']).violations if v['case']['k'] == case['k']][:1]
 	if case['subset'] == 'default-spec':
 		return [v for v in t_default_spec().violations if v['case'] == case]
 	ks = fixtures.kspec(K, PREFIX)
